@@ -101,6 +101,44 @@ func init() {
 }
 
 func init() {
+	reg("github.com/cosmos/cosmos-sdk/x/staking/types.NewHistoricalInfo", "NewHistoricalInfo(header, valset, _) records the header and a permutation of the validator list (sorted the CometBFT way) (A-SORT)", func(c *CallCtx) []Outcome {
+		x := c.x
+		e := x.enc
+		rt := c.resultType(0)
+		st := structOfType(rt)
+		vs := x.asTV(c.st, c.args[1]) // staking Validators{Validators []Validator, ValidatorCodec}
+		vst := structOfType(vs.Ty)
+		if st == nil || vst == nil {
+			x.fail("NewHistoricalInfo: unexpected types")
+			return nil
+		}
+		var in TV
+		for i := 0; i < vst.NumFields(); i++ {
+			if vst.Field(i).Name() == "Validators" {
+				in = TV{T: e.Sel(vs.Ty, i, vs.T), Ty: vst.Field(i).Type()}
+			}
+		}
+		hdr := x.asTV(c.st, c.args[0])
+		n := app("gseq.len", in.T)
+		nw := x.freshTV("histvals", in.Ty, c.st)
+		c.st.Assume(eq(app("gseq.len", nw.T), n))
+		id := e.Fresh("hperm")
+		perm := e.DeclFun("perm."+id, []string{"Int"}, "Int")
+		pinv := e.DeclFun("pinv."+id, []string{"Int"}, "Int")
+		oa, na := app("gseq.arr", in.T), app("gseq.arr", nw.T)
+		c.st.Assume(fmt.Sprintf("(forall ((j Int)) (! (=> (and (<= 0 j) (< j %s)) (and (<= 0 (%s j)) (< (%s j) %s) (= (select %s j) (select %s (%s j))))) :pattern ((select %s j))))", n, perm, perm, n, na, oa, perm, na))
+		c.st.Assume(fmt.Sprintf("(forall ((j Int)) (! (=> (and (<= 0 j) (< j %s)) (and (<= 0 (%s j)) (< (%s j) %s) (= (select %s (%s j)) (select %s j)))) :pattern ((select %s j))))", n, pinv, pinv, n, na, pinv, oa, oa))
+		r := e.Zero(rt)
+		for i := 0; i < st.NumFields(); i++ {
+			switch st.Field(i).Name() {
+			case "Header":
+				r = e.Upd(rt, i, r, hdr.T)
+			case "Valset":
+				r = e.Upd(rt, i, r, nw.T)
+			}
+		}
+		return c.ret(TV{T: r, Ty: rt})
+	})
 	reg("sort.SliceStable", "sort.SliceStable rearranges the slice in place into a permutation of its elements ordered by less (A-SORT)", func(c *CallCtx) []Outcome {
 		x := c.x
 		e := x.enc
